@@ -167,6 +167,15 @@ def gen_program(case_seed, force=None):
             pi = tuple((n_, k_, d_, ('AlsoMissing%d' % rnd.randint(1, 2) if rnd.random() < 0.6 else a_)) for n_, k_, d_, a_ in pi)
         if rnd.random() < 0.05:
             pi = tuple((('a' if k == 0 and p[1] not in (VA, VK) else p[0]),) + p[1:] for k, p in enumerate(pi))
+        elif 'taints' not in force and rnd.random() < 0.06:
+            # the name of ANY of the wrapper's own parameters (keyword-only ones included) for any one of the callee's:
+            # the declaration cannot be honoured, the plain signature is all that can be said
+            onames = [p[0] for p in po if p[1] not in (VA, VK)]
+            inamed = [k for k, p in enumerate(pi) if p[1] not in (VA, VK)]
+            if onames and inamed:
+                k_, nm_ = rnd.choice(inamed), rnd.choice(onames)
+                if nm_ not in [p[0] for p in pi]:
+                    pi = tuple(((nm_,) + p[1:]) if j == k_ else p for j, p in enumerate(pi))
         ipos = [p[0] for p in pi if p[1] in (PO, PK)]
         ivp, ivk = sigs.has_kind(pi, VA), sigs.has_kind(pi, VK)
         n = rnd.randint(0, min(3 if len(pi) > 3 else 2, len(ipos) + (1 if ivp else 0)))
